@@ -50,6 +50,9 @@ type Frame struct {
 	loopHead map[*ssa.BasicBlock]*loopState
 	top      bool
 	callN    map[string]int
+	localVars map[string]Val
+	lastRets map[string][]Val
+	lastRetNames map[string]map[string]int
 }
 
 type loopState struct {
@@ -61,6 +64,7 @@ type loopState struct {
 	spec    *LoopSpec
 	reach   *Term
 	unroll  bool
+	entryVars map[string]Val
 }
 
 func (fr *Frame) b() *TermBank { return fr.cx.w.b }
@@ -164,6 +168,24 @@ func (fr *Frame) guardObligation(bg *boundGuard, self *Term, p token.Pos, what s
 
 func (fr *Frame) assume(t *Term) {
 	fr.cx.assume(fr.b().Implies(fr.reach, t))
+}
+
+func (fr *Frame) isParamName(name string) bool {
+	for _, p := range fr.fn.Params {
+		if p.Name() == name {
+			return true
+		}
+	}
+	return false
+}
+
+func (fr *Frame) tryVal(v ssa.Value) (val Val, ok bool) {
+	defer func() {
+		if r := recover(); r != nil {
+			ok = false
+		}
+	}()
+	return fr.val(v), true
 }
 
 // value lookup
@@ -505,7 +527,17 @@ func (fr *Frame) specEnv(cur *State) *SpecEnv {
 	if bc := fr.eng().contractFor(fr.fn); bc != nil {
 		tp = fr.eng().typesPackage(bc.C.PkgPath)
 	}
-	return &SpecEnv{cx: fr.cx, pkg: tp, vars: fr.vars, cur: cur, old: fr.entry}
+	vars := fr.vars
+	if len(fr.localVars) > 0 {
+		vars = map[string]Val{}
+		for k, v := range fr.localVars {
+			vars[k] = v
+		}
+		for k, v := range fr.vars {
+			vars[k] = v
+		}
+	}
+	return &SpecEnv{cx: fr.cx, pkg: tp, vars: vars, cur: cur, old: fr.entry}
 }
 
 // enterLoop handles a loop header: checks the invariant on entry, havocs the
@@ -525,7 +557,7 @@ func (fr *Frame) enterLoop(head *ssa.BasicBlock, phis []*ssa.Phi, outside func(*
 	ls.preSt = pre
 	// 1. invariant on entry, with phi = outside value
 	entryVars := map[string]Val{}
-	for k, v := range fr.vars {
+	for k, v := range fr.specEnv(fr.st).vars {
 		entryVars[k] = v
 	}
 	phiOutside := map[*ssa.Phi]Val{}
@@ -534,6 +566,7 @@ func (fr *Frame) enterLoop(head *ssa.BasicBlock, phis []*ssa.Phi, outside func(*
 		phiOutside[p] = ov
 		if nm := phiSourceName(p); nm != "" {
 			entryVars[nm] = ov
+			entryVars[nm+"0"] = ov
 		}
 	}
 	env := fr.specEnv(fr.st)
@@ -557,6 +590,15 @@ func (fr *Frame) enterLoop(head *ssa.BasicBlock, phis []*ssa.Phi, outside func(*
 	for _, m := range ls.mods {
 		fr.cx.havocLoc(fr.st, m)
 	}
+	// local variables (allocations made before the loop) that the loop body writes or hands out
+	for _, al := range fr.localsWrittenInLoop(head) {
+		if v, ok := fr.vals[al]; ok && v.t != nil {
+			el := al.Type().Underlying().(*types.Pointer).Elem()
+			m := ModLoc{loc: v.t, typ: el, text: "local " + al.Comment}
+			ls.mods = append(ls.mods, m)
+			fr.cx.havocLoc(fr.st, m)
+		}
+	}
 	for _, p := range phis {
 		s := fr.w().sortOf(p.Type())
 		v := Val{t: b.Const(p.Name()+"_"+phiSourceName(p), s), typ: p.Type(), fn: phiOutside[p].fn}
@@ -564,11 +606,17 @@ func (fr *Frame) enterLoop(head *ssa.BasicBlock, phis []*ssa.Phi, outside func(*
 		fr.vals[p] = v
 		ls.phis[p] = v
 	}
+	for _, p := range phis {
+		if phiSourceName(p) == "rangeindex" {
+			// the hidden index of a range loop starts at -1 and only counts up to a length
+			fr.assume(b.And(b.BVCmp("bvsge", fr.vals[p].t, b.BV(^uint64(0), 64)), b.BVCmp("bvslt", fr.vals[p].t, b.BV(1<<62, 64))))
+		}
+	}
 	ls.headSt = fr.st.clone()
 	ls.reach = fr.reach
 	// 3. assume invariant
 	vars := map[string]Val{}
-	for k, v := range fr.vars {
+	for k, v := range fr.specEnv(fr.st).vars {
 		vars[k] = v
 	}
 	for _, p := range phis {
@@ -576,6 +624,12 @@ func (fr *Frame) enterLoop(head *ssa.BasicBlock, phis []*ssa.Phi, outside func(*
 			vars[nm] = fr.vals[p]
 		}
 	}
+	for _, p := range phis {
+		if nm := phiSourceName(p); nm != "" {
+			vars[nm+"0"] = phiOutside[p]
+		}
+	}
+	ls.entryVars = vars
 	env2 := fr.specEnv(fr.st)
 	env2.vars = vars
 	env2.pre = pre
@@ -585,6 +639,86 @@ func (fr *Frame) enterLoop(head *ssa.BasicBlock, phis []*ssa.Phi, outside func(*
 		}
 	}
 	return true
+}
+
+// loopBlocks returns the natural loop of header head.
+func loopBlocks(head *ssa.BasicBlock) map[*ssa.BasicBlock]bool {
+	body := map[*ssa.BasicBlock]bool{head: true}
+	var stack []*ssa.BasicBlock
+	for _, p := range head.Preds {
+		if head.Dominates(p) {
+			stack = append(stack, p)
+		}
+	}
+	for len(stack) > 0 {
+		x := stack[len(stack)-1]
+		stack = stack[:len(stack)-1]
+		if body[x] {
+			continue
+		}
+		body[x] = true
+		for _, p := range x.Preds {
+			stack = append(stack, p)
+		}
+	}
+	return body
+}
+
+func baseAlloc(v ssa.Value) *ssa.Alloc {
+	for depth := 0; depth < 16; depth++ {
+		switch x := v.(type) {
+		case *ssa.Alloc:
+			return x
+		case *ssa.FieldAddr:
+			v = x.X
+		case *ssa.IndexAddr:
+			v = x.X
+		case *ssa.Slice:
+			v = x.X
+		case *ssa.ChangeType:
+			v = x.X
+		default:
+			return nil
+		}
+	}
+	return nil
+}
+
+// localsWrittenInLoop: allocations defined outside the loop that are stored to,
+// or whose address is passed to a call, inside the loop.
+func (fr *Frame) localsWrittenInLoop(head *ssa.BasicBlock) []*ssa.Alloc {
+	body := loopBlocks(head)
+	seen := map[*ssa.Alloc]bool{}
+	var out []*ssa.Alloc
+	add := func(v ssa.Value) {
+		if al := baseAlloc(v); al != nil && !body[al.Block()] && !seen[al] {
+			seen[al] = true
+			out = append(out, al)
+		}
+	}
+	for blk := range body {
+		for _, ins := range blk.Instrs {
+			switch x := ins.(type) {
+			case *ssa.Store:
+				add(x.Addr)
+			case ssa.CallInstruction:
+				for _, a := range x.Common().Args {
+					add(a)
+				}
+				if mc, ok := x.Common().Value.(*ssa.MakeClosure); ok {
+					for _, bv := range mc.Bindings {
+						add(bv)
+					}
+				}
+			case *ssa.MakeClosure:
+				for _, bv := range x.Bindings {
+					add(bv)
+				}
+			}
+		}
+	}
+	sort.Slice(out, func(i, j int) bool { return out[i].Pos() < out[j].Pos() })
+	return out
 }
 
 func phiSourceName(p *ssa.Phi) string {
@@ -623,7 +757,7 @@ func (fr *Frame) backEdge(from, head *ssa.BasicBlock) {
 		}
 	}
 	vars := map[string]Val{}
-	for k, v := range fr.vars {
+	for k, v := range fr.specEnv(fr.st).vars {
 		vars[k] = v
 	}
 	for _, ins := range head.Instrs {
@@ -633,11 +767,23 @@ func (fr *Frame) backEdge(from, head *ssa.BasicBlock) {
 		}
 		if nm := phiSourceName(p); nm != "" {
 			vars[nm] = fr.val(p.Edges[idx])
+			vars[nm+"_head"] = ls.phis[p]
+			if ev, ok := ls.entryVars[nm+"0"]; ok {
+				vars[nm+"0"] = ev
+			}
 		}
 	}
 	env := fr.specEnv(fr.st)
 	env.vars = vars
 	env.pre = ls.preSt
+	env.iter = ls.headSt
+	env.rets = fr.lastRets
+	env.retNames = fr.lastRetNames
+	for i, stp := range ls.spec.Steps {
+		if g := fr.evalClause(env, stp); g != nil {
+			fr.oblige("loop-step", fmt.Sprintf("loop%d.%s", ls.ordinal, clauseLabel(stp, i)), stp.Text, from.Instrs[len(from.Instrs)-1].Pos(), g)
+		}
+	}
 	for i, inv := range ls.spec.Invariants {
 		if g := fr.evalClause(env, inv); g != nil {
 			fr.oblige("invariant-preserved", fmt.Sprintf("loop%d.%s", ls.ordinal, clauseLabel(inv, i)), inv.Text, from.Instrs[len(from.Instrs)-1].Pos(), g)
